@@ -77,7 +77,11 @@ func cdsNeedsPush(req *model.PushRequest, proxy *model.Proxy) (*model.PushReques
 	// In both cases, cluster definitions are static when only endpoints change.
 	// However, if ServiceUpdate is also present, the service definition changed
 	// (ports, labels, etc.) and we need to push CDS.
-	headlessOnly := req.Reason.Has(model.HeadlessEndpointUpdate) && !req.Reason.Has(model.ServiceUpdate)
+	// Requests are merged while debouncing and queueing, so the optimization is only valid when every
+	// merged trigger was a headless endpoint update. Any other reason (ServiceUpdate, or an EndpointUpdate
+	// full push for a new service or service account, which also carries a ServiceEntry key) means a
+	// ServiceEntry key may stand for a real service change.
+	headlessOnly := req.Reason.Has(model.HeadlessEndpointUpdate) && len(req.Reason) == 1
 
 	relevantUpdates := make(sets.Set[model.ConfigKey])
 	filtered := false
